@@ -77,7 +77,9 @@ func (c *ctx) runTrieJob(j *trieJob, out chan<- batch) {
 	}
 	if want := refRoot(hf, spec.KVs); !want.Equal(&bt.root) {
 		res.Mismatch(lib.Mismatch{Sig: "root-differs-from-reference:" + spec.Impl, Input: spec, Model: fhex(&want), Impl: fhex(&bt.root)})
-		return
+		// no return: the proofs of this trie are still produced and verified against the root the trie
+		// reports, so that the property oracle decides (a proof that does not verify against the trie's own
+		// root is a violation with a replay, not only a broken correspondence)
 	}
 	rootHex := fhex(&bt.root)
 	// the key/value set and the hash table for the driver's `pv` (prover correspondence)
